@@ -39,10 +39,11 @@ var testdata embed.FS
 // ------------------------------------------------------------------ combinations
 
 type combo struct {
-	alg  uint8
-	bits int
-	exp  int  // RSA public exponent of provided keys (Generate always uses 65537)
-	pre  bool // key pairs are the committed ones: provided only, never generated
+	alg     uint8
+	bits    int
+	exp     int  // RSA public exponent of provided keys (Generate always uses 65537)
+	pre     bool // key pairs are the committed ones: provided only, never generated
+	collide bool // provided only; the DNSKEY of identity 2 has the same owner, algorithm and KEY TAG as that of identity 1
 }
 
 func (c combo) String() string {
@@ -50,20 +51,36 @@ func (c combo) String() string {
 	if c.pre {
 		s += fmt.Sprintf("/e%d/pre", c.exp)
 	}
+	if c.collide {
+		s += "/collide"
+	}
 	return s
+}
+
+// providedOnly: the combination has no Generate (behaviours with a "gen" operation are not replayed on it)
+func (c combo) providedOnly() bool { return c.pre || c.collide }
+
+// two DIFFERENT valid key pairs whose DNSKEYs differ only in key material and agree in the 16-bit key tag
+func collideCombos() []combo {
+	cs := []combo{{alg: dns.RSASHA256, bits: 1024, exp: 65537, collide: true}, {alg: dns.ED25519, bits: 256, collide: true},
+		{alg: dns.ECDSAP256SHA256, bits: 256, collide: true}}
+	if hx.Thorough() {
+		cs = append(cs, combo{alg: dns.RSASHA1, bits: 2048, exp: 65537, collide: true}, combo{alg: dns.ECDSAP384SHA384, bits: 384, collide: true})
+	}
+	return cs
 }
 
 // algorithm/size combinations whose keys the library generates (RSA: 1024 for speed, one 2048)
 func genCombos() []combo {
-	cs := []combo{{dns.RSASHA1, 1024, 65537, false}, {dns.RSASHA256, 1024, 65537, false}, {dns.RSASHA512, 1024, 65537, false}, {dns.RSASHA256, 2048, 65537, false},
-		{dns.ECDSAP256SHA256, 256, 0, false}, {dns.ECDSAP384SHA384, 384, 0, false}, {dns.ED25519, 256, 0, false},
+	cs := []combo{{dns.RSASHA1, 1024, 65537, false, false}, {dns.RSASHA256, 1024, 65537, false, false}, {dns.RSASHA512, 1024, 65537, false, false}, {dns.RSASHA256, 2048, 65537, false, false},
+		{dns.ECDSAP256SHA256, 256, 0, false, false}, {dns.ECDSAP384SHA384, 384, 0, false, false}, {dns.ED25519, 256, 0, false, false},
 		// sizes that are not a multiple of 8: the modulus has a partial leading octet
-		{dns.RSASHA256, 1031, 65537, false}, {dns.RSASHA512, 1028, 65537, false}}
+		{dns.RSASHA256, 1031, 65537, false, false}, {dns.RSASHA512, 1028, 65537, false, false}}
 	if hx.Thorough() { // fresh keys at the size boundaries too (4096 is the largest size Generate supports)
-		cs = append(cs, combo{dns.RSASHA1NSEC3SHA1, 1024, 65537, false}, combo{dns.RSASHA256, 1032, 65537, false},
-			combo{dns.RSASHA512, 4088, 65537, false}, combo{dns.RSASHA256, 4096, 65537, false},
-			combo{dns.RSASHA1, 1025, 65537, false}, combo{dns.RSASHA1NSEC3SHA1, 1100, 65537, false},
-			combo{dns.RSASHA256, 2049, 65537, false}, combo{dns.RSASHA512, 4095, 65537, false})
+		cs = append(cs, combo{dns.RSASHA1NSEC3SHA1, 1024, 65537, false, false}, combo{dns.RSASHA256, 1032, 65537, false, false},
+			combo{dns.RSASHA512, 4088, 65537, false, false}, combo{dns.RSASHA256, 4096, 65537, false, false},
+			combo{dns.RSASHA1, 1025, 65537, false, false}, combo{dns.RSASHA1NSEC3SHA1, 1100, 65537, false, false},
+			combo{dns.RSASHA256, 2049, 65537, false, false}, combo{dns.RSASHA512, 4095, 65537, false, false})
 	}
 	return cs
 }
@@ -71,12 +88,12 @@ func genCombos() []combo {
 // committed key pairs: RSA sizes 1024 (smallest the Go runtime still signs with), 1032, 2048, 4088, 4096 and
 // public exponents of 1, 3 and 4 octets.  (512 bit keys: crypto/rsa refuses them, so does Generate.)
 func preCombos() []combo {
-	return []combo{{dns.RSASHA1, 1024, 65537, true}, {dns.RSASHA1NSEC3SHA1, 1032, 65537, true}, {dns.RSASHA256, 2048, 65537, true},
-		{dns.RSASHA512, 4088, 65537, true}, {dns.RSASHA256, 4096, 65537, true},
-		{dns.RSASHA256, 1024, 3, true}, {dns.RSASHA512, 1024, 16777217, true}, {dns.RSASHA512, 4096, 3, true}, {dns.RSASHA1, 2048, 16777217, true}}
+	return []combo{{dns.RSASHA1, 1024, 65537, true, false}, {dns.RSASHA1NSEC3SHA1, 1032, 65537, true, false}, {dns.RSASHA256, 2048, 65537, true, false},
+		{dns.RSASHA512, 4088, 65537, true, false}, {dns.RSASHA256, 4096, 65537, true, false},
+		{dns.RSASHA256, 1024, 3, true, false}, {dns.RSASHA512, 1024, 16777217, true, false}, {dns.RSASHA512, 4096, 3, true, false}, {dns.RSASHA1, 2048, 16777217, true, false}}
 }
 
-func allCombos() []combo { return append(genCombos(), preCombos()...) }
+func allCombos() []combo { return append(append(genCombos(), preCombos()...), collideCombos()...) }
 
 func comboByName(n string) combo {
 	for _, c := range allCombos() {
@@ -314,6 +331,71 @@ func provided(c combo, s crypto.Signer) *realKey {
 	return &realKey{pub: dnskey(keyOwner, 256, 3, int(c.alg), encodePublic(s.Public())), std: s.Public(), text: renderPrivate(c.alg, s)}
 }
 
+// RFC 4034 Appendix B, only to CONSTRUCT colliding keys (never used as an oracle)
+func tagOf(flags uint16, proto, alg uint8, pub []byte) int {
+	rd := append([]byte{byte(flags >> 8), byte(flags), proto, alg}, pub...)
+	ac := 0
+	for i, b := range rd {
+		if i&1 == 0 {
+			ac += int(b) << 8
+		} else {
+			ac += int(b)
+		}
+	}
+	return (ac + ac>>16) & 0xffff
+}
+
+// a second, different, VALID key pair whose DNSKEY has the key tag of a's
+func colliding(c combo, a *realKey) *realKey {
+	want := tagOf(256, 3, c.alg, encodePublic(a.std))
+	switch c.alg {
+	case dns.ECDSAP256SHA256, dns.ECDSAP384SHA384:
+		curve := elliptic.P256()
+		if c.alg == dns.ECDSAP384SHA384 {
+			curve = elliptic.P384()
+		}
+		start, _ := rand.Int(rand.Reader, new(big.Int).Rsh(curve.Params().N, 1))
+		for d := start; ; d = new(big.Int).Add(d, big.NewInt(1)) {
+			x, y := curve.ScalarBaseMult(d.Bytes())
+			k := &ecdsa.PrivateKey{PublicKey: ecdsa.PublicKey{Curve: curve, X: x, Y: y}, D: d}
+			if tagOf(256, 3, c.alg, encodePublic(&k.PublicKey)) == want {
+				return provided(c, k)
+			}
+		}
+	case dns.ED25519:
+		seed := make([]byte, ed25519.SeedSize)
+		rand.Read(seed)
+		for i := uint32(0); ; i++ {
+			seed[0], seed[1], seed[2], seed[3] = byte(i), byte(i>>8), byte(i>>16), byte(i>>24)
+			k := ed25519.NewKeyFromSeed(seed)
+			if tagOf(256, 3, c.alg, encodePublic(k.Public())) == want {
+				return provided(c, k)
+			}
+		}
+	}
+	// RSA: a fresh modulus, and the public exponent (3 octets) searched so that the tag agrees
+	k := makeRSA(c.bits, 65537)
+	one := big.NewInt(1)
+	phi := new(big.Int).Mul(new(big.Int).Sub(k.Primes[0], one), new(big.Int).Sub(k.Primes[1], one))
+	for e := 65539; e < 1<<24; e += 2 {
+		if tagOf(256, 3, c.alg, encodePublic(&rsa.PublicKey{N: k.N, E: e})) != want {
+			continue
+		}
+		d := new(big.Int).ModInverse(big.NewInt(int64(e)), phi)
+		if d == nil {
+			continue
+		}
+		b := &rsa.PrivateKey{PublicKey: rsa.PublicKey{N: k.N, E: e}, D: d, Primes: k.Primes}
+		b.Precompute()
+		if err := b.Validate(); err != nil {
+			hx.Die("colliding RSA key invalid: %v", err)
+		}
+		return provided(c, b)
+	}
+	hx.Die("no colliding exponent found")
+	return nil
+}
+
 func makeProvided(c combo, id int) *realKey {
 	if c.pre {
 		if id > 2 {
@@ -350,6 +432,10 @@ func (kl *keyLife) key(c combo, id int, origin string, fresh bool) (rk *realKey,
 	make1 := func() (*realKey, string, string) {
 		if origin == "gen" {
 			return generate(c)
+		}
+		if c.collide && id == 2 {
+			first, _, _ := kl.key(c, 1, origin, false)
+			return colliding(c, first), "", ""
 		}
 		return makeProvided(c, id), "", ""
 	}
@@ -550,8 +636,8 @@ func (kl *keyLife) replay(v *vec, sum *hx.Summary, seen map[string]bool) {
 		kl.given = v
 	}
 	for _, c := range allCombos() {
-		if c.pre && count["gen"] > 0 {
-			continue // the committed key pairs are provided, not generated
+		if c.providedOnly() && count["gen"] > 0 {
+			continue // the committed and the colliding key pairs are provided, not generated
 		}
 		kl.n++
 		sum.Evaluations++
@@ -584,7 +670,7 @@ func (kl *keyLife) stress(sum *hx.Summary) {
 		return
 	}
 	// provided keys whose integers need padding: D = 1, 2, ... and the first D whose public X or Y is short
-	for _, c := range []combo{{dns.ECDSAP256SHA256, 256, 0, false}, {dns.ECDSAP384SHA384, 384, 0, false}} {
+	for _, c := range []combo{{dns.ECDSAP256SHA256, 256, 0, false, false}, {dns.ECDSAP384SHA384, 384, 0, false, false}} {
 		curve, n := elliptic.P256(), 32
 		if c.alg == dns.ECDSAP384SHA384 {
 			curve, n = elliptic.P384(), 48
@@ -690,14 +776,14 @@ func (kl *keyLife) recordRun(rnd *mrand.Rand, w *hx.Writer, seen map[string]bool
 	steps := 4 + rnd.Intn(6)
 	trace := ""
 	maxKeys := 3
-	if c.pre {
-		maxKeys = 2 // two committed key pairs per size/exponent
+	if c.providedOnly() {
+		maxKeys = 2 // two committed key pairs per size/exponent; one colliding pair
 	}
 	for s := 0; s < steps; s++ {
 		switch x := []int{0, 1, 1, 2, 2, 3, 4, 5, 5, 5}[rnd.Intn(10)]; {
 		case len(r.hs)+len(r.texts) == 0 || (x == 0 && len(r.keys) < maxKeys):
 			id := len(r.keys) + 1
-			if c.pre || rnd.Intn(3) == 0 {
+			if c.providedOnly() || rnd.Intn(3) == 0 {
 				r.provide(id)
 				w.Emit(evKL{Ev: "kl.provide", Key: id, Alg: alg})
 				trace += "p"
